@@ -39,6 +39,10 @@ def tname(o):
 
 
 def _close(a, b, tol=TAU):
+    if a == b:  # also covers equal infinities
+        return True
+    if a != a or b != b:  # NaN: the same only if both are
+        return a != a and b != b
     return abs(a - b) <= tol
 
 
@@ -96,11 +100,13 @@ def same(a, b, angle=False):
         return (_pclose(a0, b0) and _pclose(a1, b1)) or (_pclose(a0, b1) and _pclose(a1, b0))
     if ta == "HalfLine":
         ua, ub = _unit(_pt(a.vector)), _unit(_pt(b.vector))
-        return _pclose(_pt(a.point), _pt(b.point)) and ua is not None and ub is not None and _pclose(ua, ub)
+        if ua is None or ub is None:  # degenerate (zero direction): compare the raw data
+            return ua is None and ub is None and _pclose(_pt(a.point), _pt(b.point)) and _pclose(_pt(a.vector), _pt(b.vector))
+        return _pclose(_pt(a.point), _pt(b.point)) and _pclose(ua, ub)
     if ta == "Line":
         ua, ub = _unit(_pt(a.dv)), _unit(_pt(b.dv))
         if ua is None or ub is None:
-            return False
+            return ua is None and ub is None and _pclose(_pt(a.sv), _pt(b.sv)) and _pclose(_pt(a.dv), _pt(b.dv))
         if not (_pclose(ua, ub) or _pclose(ua, tuple(-x for x in ub))):
             return False
         fa = _foot(_pt(a.sv), ua)
@@ -109,7 +115,7 @@ def same(a, b, angle=False):
     if ta == "Plane":
         ua, ub = _unit(_pt(a.n)), _unit(_pt(b.n))
         if ua is None or ub is None:
-            return False
+            return ua is None and ub is None and _pclose(_pt(a.p), _pt(b.p)) and _pclose(_pt(a.n), _pt(b.n))
         da = sum(x * y for x, y in zip(ua, _pt(a.p)))
         db = sum(x * y for x, y in zip(ub, _pt(b.p)))
         if _pclose(ua, ub):
@@ -303,6 +309,8 @@ def same_data(a, b, angle=False):
     """same() on plain-data views"""
     if a[0] != b[0]:
         return False
+    if a == b:  # bit-identical (the usual case: hot and cold world run the same arithmetic)
+        return True
     k = a[0]
     if k in ("!", "v", "?"):
         return a == b
@@ -317,18 +325,20 @@ def same_data(a, b, angle=False):
         return (_pclose(a[1], b[1]) and _pclose(a[2], b[2])) or (_pclose(a[1], b[2]) and _pclose(a[2], b[1]))
     if k == "HalfLine":
         ua, ub = _unit(a[2]), _unit(b[2])
-        return _pclose(a[1], b[1]) and ua is not None and ub is not None and _pclose(ua, ub)
+        if ua is None or ub is None:
+            return ua is None and ub is None and _pclose(a[1], b[1]) and _pclose(a[2], b[2])
+        return _pclose(a[1], b[1]) and _pclose(ua, ub)
     if k == "Line":
         ua, ub = _unit(a[2]), _unit(b[2])
         if ua is None or ub is None:
-            return False
+            return ua is None and ub is None and _pclose(a[1], b[1]) and _pclose(a[2], b[2])
         if not (_pclose(ua, ub) or _pclose(ua, tuple(-x for x in ub))):
             return False
         return _pclose(_foot(a[1], ua), _foot(b[1], ub))
     if k == "Plane":
         ua, ub = _unit(a[2]), _unit(b[2])
         if ua is None or ub is None:
-            return False
+            return ua is None and ub is None and _pclose(a[1], b[1]) and _pclose(a[2], b[2])
         da = sum(x * y for x, y in zip(ua, a[1]))
         db = sum(x * y for x, y in zip(ub, b[1]))
         if _pclose(ua, ub):
